@@ -60,6 +60,18 @@ CHECKS = {
             "certificates that the spec verifies (falls back to its own algorithm). IsTorsionFree is sampled (16 quick / 200 thorough).",
             "TLA+ Edwards module: exhaustive TLC on toy curves + TLC trace validation of in-package recorded executions at real scale",
             "5/C10"),
+    "C03": ("model_checking",
+            "TLC checks on complete toy curves that every formula variant of Edwards.tla (extended/projective-Niels/affine-Niels add and "
+            "sub, doubling, negation, x8, double-and-add) equals the affine group law for every point pair in several projective "
+            "scalings and every (unreduced) scalar string; the same module at real scale recomputes sum [s_i]P_i for executions recorded "
+            "inside package curve: all torsion pairs, mixed-order points in random scalings, every scalar-multiplication entry point "
+            "(variable-base, fixed-base with the live / packed generic / run-time built table, double-base, CT and vartime multiscalar, "
+            "expanded variants) with boundary and unreduced 255-bit scalars, term counts 0..8 and the Straus/Pippenger thresholds, on "
+            "AVX2 and serial backends (quick) or all four configurations (thorough).",
+            "Trusts TLC/SANY, BigNat/F25519, Element.ToBytes for reading coordinates (C04). Sampled at real scale except for the finite "
+            "torsion families; each real-scale scalar multiplication costs ~4 s of TLC time, which bounds the sample (tens quick, ~1000 thorough).",
+            "TLA+ Edwards group law: exhaustive TLC on toy curves + TLC trace validation of recorded scalar multiplications at real scale",
+            "5/C03"),
 }
 
 NOT_YET = "check not built yet in this round (planned, see DESIGN.md section 11); not claimed until its machinery exists"
